@@ -74,6 +74,22 @@ def main(argv=None):
         traceback.print_exc()
         print("TOOL-ERROR property=%s could not run units" % prop)
         return 3
+    # second attempt: a proof unit with a few `unknown` (not refuted) obligations is re-run alone with three times the solver
+    # budget before anything is concluded from it -- `unknown` under machine load must not become a verdict
+    try:
+        retry = [r["unit"] for r in results if r["mode"] != "R" and not r["crashed"] and 0 < sum(
+            1 for o in r["obligations"] if o["expect"] == "proved" and o["status"] == "unknown" and o["kind"] != "unsupported") <= 6]
+        if retry and not os.environ.get("PYVC_TIMEOUT_SCALE"):
+            os.environ["PYVC_TIMEOUT_SCALE"] = "3"
+            try:
+                again = U.run_units(prop, a.tier, seed, retry, 2)
+            finally:
+                del os.environ["PYVC_TIMEOUT_SCALE"]
+            byname = {r["unit"]: r for r in again if not r["crashed"]}
+            results = [byname.get(r["unit"], r) for r in results]
+            print("second attempt with 3x solver budget for %d unit(s): %s" % (len(retry), "; ".join(u[:60] for u in retry)))
+    except Exception:
+        traceback.print_exc()
     findings = load_findings()
     exp_path = os.path.join(VERIF, "expected", "%s.json" % prop)
     expected = json.load(open(exp_path)) if os.path.exists(exp_path) else {}
